@@ -1,6 +1,230 @@
-use crate::util::Opts;
+//! tour: execute TLC-emitted cases (network + all valid tours / dummy tours / paths) on the real
+//! Tour API. Tours are materialised through the public Schedule API (spawn_vehicle_for_path,
+//! replace_vehicle_by_dummy) and obtained with Schedule::tour_of.
+//!
+//! Per network: every tour x every path -> insert_path, conflict, latest_not_reaching_node;
+//! every tour x every segment (i <= j) -> check_removable, remove, sub_path; every real tour x
+//! every depot -> replace_start_depot / replace_end_depot. Results are logged, not judged.
 
-pub fn run(_opts: &Opts) -> i32 {
-    eprintln!("not implemented yet");
-    2
+use std::collections::HashMap;
+use std::sync::Arc;
+
+use model::base_types::NodeIdx;
+use model::json_serialisation::load_rolling_stock_problem_instance_from_json;
+use model::network::Network;
+use serde_json::{json, Value};
+use solution::path::Path;
+use solution::segment::Segment;
+use solution::tour::Tour;
+use solution::Schedule;
+
+use crate::netdump::nid;
+use crate::scheddrive::ids;
+use crate::util::{dist_i, dur_i, guarded, read_lines, Opts, Out};
+
+fn figures(t: &Tour) -> Value {
+    json!({
+        "sd": dist_i(t.service_distance()),
+        "dd": dist_i(t.dead_head_distance()),
+        "ud": dur_i(t.useful_duration()),
+        "c": t.costs(),
+        "vm": t.visits_maintenance(),
+    })
+}
+
+fn tour_ids(nw: &Network, t: &Tour) -> Vec<String> {
+    t.all_nodes_iter().map(|n| nid(nw, n)).collect()
+}
+
+fn resolve(map: &HashMap<String, NodeIdx>, v: &Value) -> Vec<NodeIdx> {
+    v.as_array()
+        .unwrap()
+        .iter()
+        .map(|x| map[x.as_str().unwrap()])
+        .collect()
+}
+
+fn materialise(nw: &Arc<Network>, nodes: &[NodeIdx], dummy: bool) -> Result<Tour, String> {
+    let vt = nw.vehicle_types().iter().next().unwrap();
+    let s = Schedule::empty(nw.clone());
+    if dummy {
+        let (s1, v) = s.spawn_vehicle_for_path(vt, nodes.to_vec())?;
+        let s2 = s1.replace_vehicle_by_dummy(v)?;
+        let d = s2.dummy_iter().next().ok_or("no dummy")?;
+        Ok(s2.tour_of(d)?.clone())
+    } else {
+        let (s1, v) = s.spawn_vehicle_for_path(vt, nodes.to_vec())?;
+        Ok(s1.tour_of(v)?.clone())
+    }
+}
+
+pub fn run(opts: &Opts) -> i32 {
+    let inputs = read_lines(opts.req("in"));
+    let mut out = Out::create(opts.req("out"));
+    let stride = opts.num("stride", 1) as usize; // keep every stride-th insert case (1 = all)
+    let mut counter: usize = 0;
+    for item in inputs {
+        let name = item["name"].as_str().unwrap_or("?").to_string();
+        let input = item["input"].clone();
+        let nw = match guarded(|| load_rolling_stock_problem_instance_from_json(input)) {
+            Ok(nw) => nw,
+            Err(msg) => {
+                out.emit(&json!({"ev": "loadfail", "name": name, "panic": msg}));
+                continue;
+            }
+        };
+        let map: HashMap<String, NodeIdx> = nw.all_nodes().map(|n| (nid(&nw, n), n)).collect();
+        let mut tours: Vec<(Tour, bool, Vec<String>)> = Vec::new();
+        for (key, dummy) in [("tours", false), ("dummies", true)] {
+            for t in item[key].as_array().unwrap() {
+                let nodes = resolve(&map, t);
+                let want = ids(&nw, &nodes);
+                match guarded(|| materialise(&nw, &nodes, dummy)) {
+                    Ok(Ok(tour)) => {
+                        let got = tour_ids(&nw, &tour);
+                        out.emit(&json!({"ev": "t", "name": name, "op": "mat", "tour": want, "dummy": dummy,
+                            "ok": true, "panic": false, "res": got, "fig": figures(&tour)}));
+                        if got == want {
+                            tours.push((tour, dummy, want));
+                        }
+                    }
+                    Ok(Err(e)) => out.emit(&json!({"ev": "t", "name": name, "op": "mat", "tour": want, "dummy": dummy,
+                        "ok": false, "panic": false, "msg": e, "res": [], "fig": {}})),
+                    Err(msg) => out.emit(&json!({"ev": "t", "name": name, "op": "mat", "tour": want, "dummy": dummy,
+                        "ok": false, "panic": true, "msg": msg, "res": [], "fig": {}})),
+                }
+            }
+        }
+        let paths: Vec<Vec<NodeIdx>> = item["paths"].as_array().unwrap().iter().map(|p| resolve(&map, p)).collect();
+        let sds: Vec<NodeIdx> = nw.start_depot_nodes().collect();
+        let eds: Vec<NodeIdx> = nw.end_depot_nodes().collect();
+
+        for (tour, dummy, tids) in tours.iter() {
+            // ---- insert / conflict / position probe
+            for p in paths.iter() {
+                counter += 1;
+                if counter % stride != 0 {
+                    continue;
+                }
+                let pids = ids(&nw, p);
+                let base = json!({"ev": "t", "name": name, "tour": tids, "dummy": dummy, "path": pids});
+                let mk = |op: &str, extra: Value| {
+                    let mut b = base.clone();
+                    b["op"] = json!(op);
+                    for (k, v) in extra.as_object().unwrap() {
+                        b[k] = v.clone();
+                    }
+                    b
+                };
+                let res = guarded(|| {
+                    let path = Path::new(p.clone(), nw.clone())?.ok_or_else(|| String::from("no activity"))?;
+                    Ok::<_, String>(tour.insert_path(path))
+                });
+                match res {
+                    Ok(Ok((nt, removed))) => out.emit(&mk("insert", json!({"ok": true, "panic": false,
+                        "res": tour_ids(&nw, &nt),
+                        "removed": removed.map(|r| ids(&nw, &r.iter().collect::<Vec<_>>())).unwrap_or_default(),
+                        "fig": figures(&nt)}))),
+                    Ok(Err(e)) => out.emit(&mk("insert", json!({"ok": false, "panic": false, "msg": e,
+                        "res": [], "removed": [], "fig": {}}))),
+                    Err(m) => out.emit(&mk("insert", json!({"ok": false, "panic": true, "msg": m,
+                        "res": [], "removed": [], "fig": {}}))),
+                }
+                // conflict and position probe use the path as it would be inserted
+                let eff: Vec<NodeIdx> = if *dummy {
+                    p.iter().copied().filter(|&n| !nw.node(n).is_depot()).collect()
+                } else {
+                    p.clone()
+                };
+                let (first, last) = (eff[0], eff[eff.len() - 1]);
+                match guarded(|| tour.conflict(Segment::new(first, last))) {
+                    Ok(c) => out.emit(&mk("conflict", json!({"ok": true, "panic": false,
+                        "res": c.map(|r| ids(&nw, &r.iter().collect::<Vec<_>>())).unwrap_or_default()}))),
+                    Err(m) => out.emit(&mk("conflict", json!({"ok": false, "panic": true, "msg": m, "res": []}))),
+                }
+                if !nw.node(first).is_depot() {
+                    match guarded(|| tour.latest_not_reaching_node(first)) {
+                        Ok(pos) => out.emit(&mk("lnr", json!({"ok": true, "panic": false,
+                            "pos": pos.map(|x| x as i64).unwrap_or(-1)}))),
+                        Err(m) => out.emit(&mk("lnr", json!({"ok": false, "panic": true, "msg": m, "pos": -2}))),
+                    }
+                }
+            }
+            // ---- remove / removable / sub_path for every segment of the tour
+            let nodes: Vec<NodeIdx> = tour.all_nodes_iter().collect();
+            for i in 0..nodes.len() {
+                for j in i..nodes.len() {
+                    let has_act = (i..=j).any(|k| !nw.node(nodes[k]).is_depot());
+                    if !has_act {
+                        continue; // a depot alone is not a segment
+                    }
+                    let seg = Segment::new(nodes[i], nodes[j]);
+                    let base = json!({"ev": "t", "name": name, "tour": tids, "dummy": dummy,
+                        "s": nid(&nw, nodes[i]), "e": nid(&nw, nodes[j])});
+                    let mk = |op: &str, extra: Value| {
+                        let mut b = base.clone();
+                        b["op"] = json!(op);
+                        for (k, v) in extra.as_object().unwrap() {
+                            b[k] = v.clone();
+                        }
+                        b
+                    };
+                    match guarded(|| tour.check_removable(seg)) {
+                        Ok(r) => out.emit(&mk("removable", json!({"ok": r.is_ok(), "panic": false}))),
+                        Err(m) => out.emit(&mk("removable", json!({"ok": false, "panic": true, "msg": m}))),
+                    }
+                    match guarded(|| tour.remove(seg)) {
+                        Ok(Ok((rest, removed))) => out.emit(&mk("remove", json!({"ok": true, "panic": false,
+                            "res": rest.as_ref().map(|t| tour_ids(&nw, t)).unwrap_or_default(),
+                            "removed": ids(&nw, &removed.iter().collect::<Vec<_>>()),
+                            "fig": rest.as_ref().map(figures).unwrap_or(json!({}))}))),
+                        Ok(Err(e)) => out.emit(&mk("remove", json!({"ok": false, "panic": false, "msg": e,
+                            "res": [], "removed": [], "fig": {}}))),
+                        Err(m) => out.emit(&mk("remove", json!({"ok": false, "panic": true, "msg": m,
+                            "res": [], "removed": [], "fig": {}}))),
+                    }
+                    match guarded(|| tour.sub_path(seg)) {
+                        Ok(Ok(p)) => out.emit(&mk("sub_path", json!({"ok": true, "panic": false,
+                            "res": ids(&nw, &p.iter().collect::<Vec<_>>())}))),
+                        Ok(Err(e)) => out.emit(&mk("sub_path", json!({"ok": false, "panic": false, "msg": e, "res": []}))),
+                        Err(m) => out.emit(&mk("sub_path", json!({"ok": false, "panic": true, "msg": m, "res": []}))),
+                    }
+                }
+            }
+            // ---- depot replacement
+            for (op, depots) in [("rsd", &sds), ("red", &eds)] {
+                for &d in depots.iter() {
+                    let r = guarded(|| if op == "rsd" { tour.replace_start_depot(d) } else { tour.replace_end_depot(d) });
+                    let base = json!({"ev": "t", "name": name, "op": op, "tour": tids, "dummy": dummy, "depot": nid(&nw, d)});
+                    let mut b = base.clone();
+                    match r {
+                        Ok(Ok(nt)) => {
+                            b["ok"] = json!(true);
+                            b["panic"] = json!(false);
+                            b["res"] = json!(tour_ids(&nw, &nt));
+                            b["fig"] = figures(&nt);
+                        }
+                        Ok(Err(e)) => {
+                            b["ok"] = json!(false);
+                            b["panic"] = json!(false);
+                            b["msg"] = json!(e);
+                            b["res"] = json!([]);
+                            b["fig"] = json!({});
+                        }
+                        Err(m) => {
+                            b["ok"] = json!(false);
+                            b["panic"] = json!(true);
+                            b["msg"] = json!(m);
+                            b["res"] = json!([]);
+                            b["fig"] = json!({});
+                        }
+                    }
+                    out.emit(&b);
+                }
+            }
+        }
+        out.flush();
+    }
+    out.flush();
+    0
 }
